@@ -182,12 +182,30 @@ impl Queries {
 
         let queries_start = decoder.index();
         let inner = LowerQuery::read(decoder)?;
-        let original = decoder
-            .slice_from(queries_start)?
-            .to_vec()
-            .into_boxed_slice();
+        let mut original = decoder.slice_from(queries_start)?.to_vec();
 
-        Ok(Self { inner, original })
+        // The question bytes are echoed verbatim into the response (`as_emit_and_count`). A
+        // compression pointer in the question name can only point into the header, which the
+        // response replaces, so the echoed bytes would change their meaning or stop being
+        // decodable there. Echo the plain wire form of the decoded name (letter case as
+        // received) followed by the type and class octets as received instead.
+        let name = &inner.original().name;
+        let plain_len = name.iter().map(|label| label.len() + 1).sum::<usize>() + 1;
+        if original.len() != plain_len + 4 {
+            let mut plain = Vec::with_capacity(plain_len + 4);
+            for label in name.iter() {
+                plain.push(label.len() as u8);
+                plain.extend_from_slice(label);
+            }
+            plain.push(0);
+            plain.extend_from_slice(&original[original.len() - 4..]);
+            original = plain;
+        }
+
+        Ok(Self {
+            inner,
+            original: original.into_boxed_slice(),
+        })
     }
 
     /// Construct a mock Queries object for a given query for testing purposes
